@@ -31,8 +31,14 @@ class Prop(object):
         seeds = B.seeds()
         ctx.corr_names.append("REAL validator on mutated byte strings: verdict is OK or a ConformanceError whose reporting methods work")
         cases = [(n, d) for n, d in seeds]
-        for _ in range(ctx.n(5000, 120000)):
-            n, d = rng.choice(seeds)
+        # directed header variants (unknown and too-new preset indices of every kind, odd field heights ...): error classes
+        # and report formatters that random mutation practically never reaches; also mutated further
+        directed = B.directed_variants()
+        ctx.count("directed-variants", len(directed))
+        cases += directed
+        pool = seeds + directed
+        for i in range(ctx.n(5000, 120000)):
+            n, d = rng.choice(pool if i % 5 == 0 else seeds)
             cases.append((n, B.mutate(rng, d)))
         for n, data in cases:
             res = B.validate(data)
@@ -54,7 +60,11 @@ class Prop(object):
 
     def search(self, ctx):
         rng = ctx.rng("search")
-        seeds = B.seeds()
+        seeds = B.seeds() + B.directed_variants()
+        for n, d in B.directed_variants():
+            res = B.validate(d)
+            if classify(res) == "violation":
+                return {"seed": n, "bytes": d.hex(), "why": "validator outcome %s" % res}
         for _ in range(ctx.n(8000, 150000)):
             n, d = rng.choice(seeds)
             m = B.mutate(rng, d)
